@@ -21,6 +21,12 @@ use swimos::agent::agent_model::AgentModel;
 use swimos::agent::event_handler::{BoxEventHandler, EventHandler, HandlerActionExt, Sequentially};
 use swimos::agent::lanes::http::{HttpRequestContext, Response, UnitResponse};
 use swimos::agent::lanes::{CommandLane, DemandLane, DemandMapLane, MapLane, SimpleHttpLane, SupplyLane, ValueLane};
+use swimos::agent::lanes::{JoinMapLane, JoinValueLane, LinkClosedResponse};
+use swimos::agent::lanes::join_map::lifecycle::JoinMapLaneLifecycle;
+use swimos::agent::lanes::join_value::lifecycle::JoinValueLaneLifecycle;
+use swimos::agent::agent_lifecycle::{JoinMapContext, JoinValueContext};
+use swimos::agent::agent_model::downlink::{MapDownlinkHandle, ValueDownlinkHandle};
+use swimos::agent::config::{MapDownlinkConfig, SimpleDownlinkConfig};
 use swimos::agent::stores::{MapStore, ValueStore};
 use swimos::agent::{lifecycle, projections, AgentLaneModel};
 use swimos_api::address::RelativeAddress;
@@ -35,8 +41,15 @@ use swimos_runtime::agent::{
     AgentAttachmentRequest, AgentRouteChannels, AgentRouteDescriptor, AgentRouteTask,
     AgentRuntimeConfig, CombinedAgentConfig, CommanderKey, DisconnectionReason, LinkRequest,
 };
+use swimos_agent_protocol::encoding::downlink::{DownlinkNotificationEncoder, DownlinkOperationDecoder};
+use swimos_agent_protocol::encoding::map::{MapMessageEncoder, MapOperationDecoder};
+use swimos_agent_protocol::{DownlinkNotification, MapMessage, MapOperation};
+use swimos_api::agent::DownlinkKind;
+use swimos_api::error::{DownlinkFailureReason, DownlinkRuntimeError};
+use swimos_runtime::agent::DownlinkRequest;
 use swimos_utilities::byte_channel::{byte_channel, ByteReader, ByteWriter};
 use swimos_utilities::trigger::{self, promise};
+use tokio_util::codec::Encoder;
 use tokio::sync::mpsc;
 use tokio_util::codec::{FramedRead, FramedWrite};
 use uuid::Uuid;
@@ -76,6 +89,9 @@ pub struct TestAgent {
     dem: DemandLane<i32>,
     dmap: DemandMapLane<i32, i32>,
     http: SimpleHttpLane<i32>,
+    // join lanes (always transient); declared last for the same reason
+    jv: JoinValueLane<i32, i32>,
+    jm: JoinMapLane<i32, i32, i32>,
 }
 
 #[derive(Clone)]
@@ -237,9 +253,228 @@ fn instruction(context: HandlerContext<TestAgent>, ins: &str) -> Option<BoxEvent
             }
         }
         "stop" => context.stop().boxed(),
+        // ---- join lanes and hosted downlinks (configuration E, hosted downlinks / join lanes)
+        // jadd jv <key> <node> <resp> | jmadd jm <link> <node> <resp>: add a downlink to the join lane; <resp> (retry |
+        // abandon | delete) is what the join lifecycle answers when that link closes
+        op @ ("jadd" | "jmadd") => {
+            let key = num(2)?;
+            let node = parts.get(3)?.to_string();
+            let resp = parts.get(4).copied().unwrap_or("abandon").to_string();
+            let lane = if op == "jadd" { "jv" } else { "jm" };
+            let id = node_id(&node);
+            let (node2, resp2) = (node.clone(), resp.clone());
+            let note = context.effect(move || {
+                let mut g = JRESP.lock();
+                g.retain(|((l, k), _)| !(*l == lane && *k == key));
+                g.push(((lane, key), resp2.clone()));
+                log(json!({"e": "jadd", "lane": lane, "key": key, "id": id, "node": node2, "resp": resp2}));
+            });
+            if op == "jadd" {
+                note.followed_by(context.add_downlink(TestAgent::JV, key, None, &node, "lane")).boxed()
+            } else {
+                note.followed_by(context.add_map_downlink(TestAgent::JM, key, None, &node, "lane")).boxed()
+            }
+        }
+        // jrem jv <key> | jmrem jm <link>: remove the downlink; the lane's map is read before and after in the same handler
+        "jrem" => {
+            let key = num(2)?;
+            context
+                .get_map(TestAgent::JV)
+                .and_then(move |before: HashMap<i32, i32>| {
+                    context.remove_downlink(TestAgent::JV, key).followed_by(context.get_map(TestAgent::JV).and_then(
+                        move |after: HashMap<i32, i32>| {
+                            context.effect(move || {
+                                log(json!({"e": "jrem", "lane": "jv", "key": key, "before": sorted(before), "after": sorted(after)}))
+                            })
+                        },
+                    ))
+                })
+                .boxed()
+        }
+        "jmrem" => {
+            let key = num(2)?;
+            context
+                .get_map(TestAgent::JM)
+                .and_then(move |before: HashMap<i32, i32>| {
+                    context.remove_downlink(TestAgent::JM, key).followed_by(context.get_map(TestAgent::JM).and_then(
+                        move |after: HashMap<i32, i32>| {
+                            context.effect(move || {
+                                log(json!({"e": "jrem", "lane": "jm", "key": key, "before": sorted(before), "after": sorted(after)}))
+                            })
+                        },
+                    ))
+                })
+                .boxed()
+        }
+        // jget jv | jget jm: logs the lane's map
+        "jget" => match parts.get(1).copied()? {
+            "jv" => context
+                .get_map(TestAgent::JV)
+                .and_then(move |m: HashMap<i32, i32>| context.effect(move || log(json!({"e": "jget", "lane": "jv", "map": sorted(m)}))))
+                .boxed(),
+            "jm" => context
+                .get_map(TestAgent::JM)
+                .and_then(move |m: HashMap<i32, i32>| context.effect(move || log(json!({"e": "jget", "lane": "jm", "map": sorted(m)}))))
+                .boxed(),
+            _ => return None,
+        },
+        // dlv <node> <flags> | dlm <node> <flags>: open a value / map downlink (flags: 1 = events when not synced,
+        // 2 = keep the downlink when it is unlinked); its handle goes to the value / map slot
+        "dlv" => {
+            let node = parts.get(1)?.to_string();
+            let flags = num(2).unwrap_or(0);
+            open_value_dl(context, node_id(&node), node, flags)
+        }
+        "dlm" => {
+            let node = parts.get(1)?.to_string();
+            let flags = num(2).unwrap_or(0);
+            open_map_dl(context, node_id(&node), node, flags)
+        }
+        // dlset <n>: write through the handle in the value slot; dlmu <k> <v> | dlmr <k> | dlmc: through the map slot
+        "dlset" => {
+            let n = num(1)?;
+            context
+                .effect(move || {
+                    let mut g = DLV.lock();
+                    match g.as_mut() {
+                        Some((id, h)) => {
+                            let ok = h.set(n).is_ok();
+                            log(json!({"e": "dlset", "id": *id, "v": n, "ok": ok}));
+                        }
+                        None => log(json!({"e": "dlset", "id": -1, "v": n, "ok": false})),
+                    }
+                })
+                .boxed()
+        }
+        op @ ("dlmu" | "dlmr" | "dlmc") => {
+            let k = num(1).unwrap_or(0);
+            let v = num(2).unwrap_or(0);
+            let op = op.to_string();
+            context
+                .effect(move || {
+                    let g = DLM.lock();
+                    match g.as_ref() {
+                        Some((id, h)) => {
+                            let (ok, m) = match op.as_str() {
+                                "dlmu" => (h.update(k, v).is_ok(), "upd"),
+                                "dlmr" => (h.remove(k).is_ok(), "rem"),
+                                _ => (h.clear().is_ok(), "clr"),
+                            };
+                            log(json!({"e": "dlmop", "id": *id, "m": m, "k": k, "v": v, "ok": ok}));
+                        }
+                        None => log(json!({"e": "dlmop", "id": -1, "m": op, "k": k, "v": v, "ok": false})),
+                    }
+                })
+                .boxed()
+        }
+        // dlclose v | dlclose m: stop the downlink through its handle
+        "dlclose" => {
+            let which = parts.get(1).copied().unwrap_or("v").to_string();
+            context
+                .effect(move || {
+                    if which == "m" {
+                        let mut g = DLM.lock();
+                        if let Some((id, h)) = g.as_mut() {
+                            log(json!({"e": "dlclose", "id": *id, "linked": h.is_linked()}));
+                            h.stop();
+                        }
+                    } else {
+                        let mut g = DLV.lock();
+                        if let Some((id, h)) = g.as_mut() {
+                            log(json!({"e": "dlclose", "id": *id, "linked": h.is_linked()}));
+                            h.stop();
+                        }
+                    }
+                })
+                .boxed()
+        }
         _ => return None,
     };
     Some(h)
+}
+
+/// the downlink id carried by a node uri "/d<id>" (-1 if it has another shape)
+fn node_id(node: &str) -> i64 {
+    node.strip_prefix("/d").and_then(|s| s.parse::<i64>().ok()).unwrap_or(-1)
+}
+
+/// what the join lifecycle of (lane, key) answers when the link closes
+static JRESP: Mutex<Vec<((&'static str, i32), String)>> = Mutex::new(Vec::new());
+/// the handle of the value / map downlink opened last by the running agent instance
+static DLV: Mutex<Option<(i64, ValueDownlinkHandle<i32>)>> = Mutex::new(None);
+static DLM: Mutex<Option<(i64, MapDownlinkHandle<i32, i32>)>> = Mutex::new(None);
+
+fn jresp(lane: &'static str, key: i32) -> (String, LinkClosedResponse) {
+    let name = JRESP.lock().iter().find(|((l, k), _)| *l == lane && *k == key).map(|(_, r)| r.clone()).unwrap_or_else(|| "abandon".to_string());
+    let r = match name.as_str() {
+        "retry" => LinkClosedResponse::Retry,
+        "delete" => LinkClosedResponse::Delete,
+        _ => LinkClosedResponse::Abandon,
+    };
+    (name, r)
+}
+
+/// A downlink lifecycle callback: its log entries are bracketed by a begin ("ph": "b", with the arguments) and an end
+/// ("ph": "e") entry; `body` runs in between.
+fn dlcb<H>(context: HandlerContext<TestAgent>, id: i64, cb: &'static str, mut fields: Value, body: H) -> impl EventHandler<TestAgent> + 'static
+where
+    H: EventHandler<TestAgent> + 'static,
+{
+    fields["e"] = json!("dlcb");
+    fields["id"] = json!(id);
+    fields["cb"] = json!(cb);
+    fields["ph"] = json!("b");
+    context
+        .effect(move || log(fields))
+        .followed_by(body)
+        .followed_by(context.effect(move || log(json!({"e": "dlcb", "id": id, "cb": cb, "ph": "e"}))))
+}
+
+fn open_value_dl(context: HandlerContext<TestAgent>, id: i64, node: String, flags: i32) -> BoxEventHandler<'static, TestAgent> {
+    let config = SimpleDownlinkConfig { events_when_not_synced: flags & 1 != 0, terminate_on_unlinked: flags & 2 == 0 };
+    let open = context
+        .value_downlink_builder::<i32>(None, &node, "lane", config)
+        .on_linked(move |c: HandlerContext<TestAgent>| dlcb(c, id, "linked", json!({}), c.effect(|| ())))
+        .on_synced(move |c: HandlerContext<TestAgent>, v: &i32| dlcb(c, id, "synced", json!({"v": *v}), c.effect(|| ())))
+        .on_event(move |c: HandlerContext<TestAgent>, v: &i32| dlcb(c, id, "event", json!({"v": *v}), c.set_value(TestAgent::VAL, *v)))
+        .on_set(move |c: HandlerContext<TestAgent>, prev: Option<i32>, v: &i32| dlcb(c, id, "set", json!({"v": *v, "prev": prev}), c.effect(|| ())))
+        .on_unlinked(move |c: HandlerContext<TestAgent>| dlcb(c, id, "unlinked", json!({}), c.effect(|| ())))
+        .on_failed(move |c: HandlerContext<TestAgent>| dlcb(c, id, "failed", json!({}), c.effect(|| ())))
+        .done();
+    context
+        .effect(move || log(json!({"e": "dlopen", "id": id, "kind": "value", "flags": flags})))
+        .followed_by(open.and_then(move |h: ValueDownlinkHandle<i32>| {
+            context.effect(move || {
+                *DLV.lock() = Some((id, h));
+            })
+        }))
+        .boxed()
+}
+
+fn open_map_dl(context: HandlerContext<TestAgent>, id: i64, node: String, flags: i32) -> BoxEventHandler<'static, TestAgent> {
+    let config = MapDownlinkConfig { events_when_not_synced: flags & 1 != 0, terminate_on_unlinked: flags & 2 == 0 };
+    let open = context
+        .map_downlink_builder::<i32, i32>(None, &node, "lane", config)
+        .on_linked(move |c: HandlerContext<TestAgent>| dlcb(c, id, "linked", json!({}), c.effect(|| ())))
+        .on_synced(move |c: HandlerContext<TestAgent>, m: &HashMap<i32, i32>| dlcb(c, id, "synced", json!({"map": sorted(m.clone())}), c.effect(|| ())))
+        .on_update(move |c: HandlerContext<TestAgent>, k: i32, m: &HashMap<i32, i32>, prev: Option<i32>, v: &i32| {
+            dlcb(c, id, "update", json!({"k": k, "v": *v, "prev": prev, "map": sorted(m.clone())}), c.update(TestAgent::MAP, k, *v))
+        })
+        .on_remove(move |c: HandlerContext<TestAgent>, k: i32, m: &HashMap<i32, i32>, prev: i32| {
+            dlcb(c, id, "remove", json!({"k": k, "prev": prev, "map": sorted(m.clone())}), c.remove(TestAgent::MAP, k))
+        })
+        .on_clear(move |c: HandlerContext<TestAgent>, m: HashMap<i32, i32>| dlcb(c, id, "clear", json!({"map": sorted(m)}), c.clear(TestAgent::MAP)))
+        .on_unlinked(move |c: HandlerContext<TestAgent>| dlcb(c, id, "unlinked", json!({}), c.effect(|| ())))
+        .on_failed(move |c: HandlerContext<TestAgent>| dlcb(c, id, "failed", json!({}), c.effect(|| ())))
+        .done();
+    context
+        .effect(move || log(json!({"e": "dlopen", "id": id, "kind": "map", "flags": flags})))
+        .followed_by(open.and_then(move |h: MapDownlinkHandle<i32, i32>| {
+            context.effect(move || {
+                *DLM.lock() = Some((id, h));
+            })
+        }))
+        .boxed()
 }
 
 /// Sends through the commander registered for the node, registering it first if there is none yet.
@@ -513,6 +748,102 @@ impl TestLifecycle {
             .followed_by(context.value(UnitResponse::default()))
     }
 
+    // ---- join lanes: every callback of the join lifecycles is logged; the lanes' own events are logged like a map lane's
+    #[join_value_lifecycle(jv)]
+    fn jv_lifecycle(&self, context: JoinValueContext<TestAgent, i32, i32>) -> impl JoinValueLaneLifecycle<i32, i32, TestAgent> + 'static {
+        context
+            .builder()
+            .on_linked(|c: HandlerContext<TestAgent>, key: i32, remote: swimos_api::address::Address<&str>| {
+                let id = node_id(remote.node);
+                c.effect(move || log(json!({"e": "jcb", "lane": "jv", "cb": "linked", "key": key, "id": id})))
+            })
+            .on_synced(|c: HandlerContext<TestAgent>, key: i32, remote: swimos_api::address::Address<&str>, value: Option<&i32>| {
+                let id = node_id(remote.node);
+                let v = value.copied();
+                c.effect(move || log(json!({"e": "jcb", "lane": "jv", "cb": "synced", "key": key, "id": id, "v": v})))
+            })
+            .on_unlinked(|c: HandlerContext<TestAgent>, key: i32, remote: swimos_api::address::Address<&str>| {
+                let id = node_id(remote.node);
+                c.effect(move || {
+                    let (name, r) = jresp("jv", key);
+                    log(json!({"e": "jcb", "lane": "jv", "cb": "unlinked", "key": key, "id": id, "resp": name}));
+                    r
+                })
+            })
+            .on_failed(|c: HandlerContext<TestAgent>, key: i32, remote: swimos_api::address::Address<&str>| {
+                let id = node_id(remote.node);
+                c.effect(move || {
+                    let (name, r) = jresp("jv", key);
+                    log(json!({"e": "jcb", "lane": "jv", "cb": "failed", "key": key, "id": id, "resp": name}));
+                    r
+                })
+            })
+            .done()
+    }
+
+    #[join_map_lifecycle(jm)]
+    fn jm_lifecycle(&self, context: JoinMapContext<TestAgent, i32, i32, i32>) -> impl JoinMapLaneLifecycle<i32, i32, TestAgent> + 'static {
+        fn keys_of(keys: &HashSet<i32>) -> Vec<i32> {
+            let mut v: Vec<i32> = keys.iter().copied().collect();
+            v.sort();
+            v
+        }
+        context
+            .builder()
+            .on_linked(|c: HandlerContext<TestAgent>, link: i32, remote: swimos_api::address::Address<&str>| {
+                let id = node_id(remote.node);
+                c.effect(move || log(json!({"e": "jcb", "lane": "jm", "cb": "linked", "key": link, "id": id})))
+            })
+            .on_synced(|c: HandlerContext<TestAgent>, link: i32, remote: swimos_api::address::Address<&str>, keys: &HashSet<i32>| {
+                let id = node_id(remote.node);
+                let ks = keys_of(keys);
+                c.effect(move || log(json!({"e": "jcb", "lane": "jm", "cb": "synced", "key": link, "id": id, "keys": ks})))
+            })
+            .on_unlinked(|c: HandlerContext<TestAgent>, link: i32, remote: swimos_api::address::Address<&str>, keys: HashSet<i32>| {
+                let id = node_id(remote.node);
+                let ks = keys_of(&keys);
+                c.effect(move || {
+                    let (name, r) = jresp("jm", link);
+                    log(json!({"e": "jcb", "lane": "jm", "cb": "unlinked", "key": link, "id": id, "keys": ks, "resp": name}));
+                    r
+                })
+            })
+            .on_failed(|c: HandlerContext<TestAgent>, link: i32, remote: swimos_api::address::Address<&str>, keys: HashSet<i32>| {
+                let id = node_id(remote.node);
+                let ks = keys_of(&keys);
+                c.effect(move || {
+                    let (name, r) = jresp("jm", link);
+                    log(json!({"e": "jcb", "lane": "jm", "cb": "failed", "key": link, "id": id, "keys": ks, "resp": name}));
+                    r
+                })
+            })
+            .done()
+    }
+
+    #[on_update(jv)]
+    pub fn on_update_jv(&self, context: HandlerContext<TestAgent>, m: &HashMap<i32, i32>, key: i32, prev: Option<i32>, new: &i32) -> impl EventHandler<TestAgent> {
+        let (n, map) = (*new, sorted(m.clone()));
+        context.effect(move || log(json!({"e": "lane", "lane": "jv", "op": "upd", "k": key, "v": n, "prev": prev, "map": map})))
+    }
+
+    #[on_remove(jv)]
+    pub fn on_remove_jv(&self, context: HandlerContext<TestAgent>, m: &HashMap<i32, i32>, key: i32, prev: i32) -> impl EventHandler<TestAgent> {
+        let map = sorted(m.clone());
+        context.effect(move || log(json!({"e": "lane", "lane": "jv", "op": "rem", "k": key, "prev": prev, "map": map})))
+    }
+
+    #[on_update(jm)]
+    pub fn on_update_jm(&self, context: HandlerContext<TestAgent>, m: &HashMap<i32, i32>, key: i32, prev: Option<i32>, new: &i32) -> impl EventHandler<TestAgent> {
+        let (n, map) = (*new, sorted(m.clone()));
+        context.effect(move || log(json!({"e": "lane", "lane": "jm", "op": "upd", "k": key, "v": n, "prev": prev, "map": map})))
+    }
+
+    #[on_remove(jm)]
+    pub fn on_remove_jm(&self, context: HandlerContext<TestAgent>, m: &HashMap<i32, i32>, key: i32, prev: i32) -> impl EventHandler<TestAgent> {
+        let map = sorted(m.clone());
+        context.effect(move || log(json!({"e": "lane", "lane": "jm", "op": "rem", "k": key, "prev": prev, "map": map})))
+    }
+
     #[on_command(cmd)]
     pub fn on_cmd(&self, context: HandlerContext<TestAgent>, value: &String) -> impl EventHandler<TestAgent> {
         let text = value.clone();
@@ -751,6 +1082,9 @@ struct Instance {
 
 fn start_instance(cfg: &Value, store: &Option<RecordingStore>) -> Instance {
     COMMANDERS.lock().clear();
+    JRESP.lock().clear();
+    *DLV.lock() = None;
+    *DLM.lock() = None;
     let (att_tx, att_rx) = mpsc::channel(16);
     let (http_tx, http_rx) = mpsc::channel(16);
     let (link_tx, link_rx) = mpsc::channel(16);
@@ -777,6 +1111,10 @@ fn start_instance(cfg: &Value, store: &Option<RecordingStore>) -> Instance {
             output_buffer_size: buf("lane_out").unwrap_or(base.output_buffer_size),
             transient: base.transient,
         });
+    }
+    // how often the agent asks again for a downlink that could not be opened / reopened (default: never)
+    if let Some(n) = cfg.get("dl_retries").and_then(|v| v.as_u64()).and_then(|n| NonZeroUsize::new(n as usize)) {
+        agent_config.keep_linked_retry = swimos_utilities::future::RetryStrategy::immediate(n);
     }
     let config = CombinedAgentConfig { agent_config, runtime_config };
     let agent = AgentModel::new(TestAgent::default, TestLifecycle.into_lifecycle());
@@ -819,6 +1157,32 @@ struct World {
     cfg: Value,
     /// HTTP requests whose response promise has not completed yet
     http_pending: Vec<(i64, swimos_api::agent::HttpResponseReceiver)>,
+    /// the environment of the agent's hosted downlinks (the harness plays the downlink runtime and the remote lanes)
+    dl: Downlinks,
+}
+
+/// The output side of an opened downlink as the harness reads it.
+enum DlOut {
+    Value(FramedRead<ByteReader, DownlinkOperationDecoder>),
+    Map(FramedRead<ByteReader, MapOperationDecoder<i32, i32>>),
+}
+
+/// One attachment (generation) of a downlink: the channels the harness holds.
+struct DlChan {
+    gen: u64,
+    kind: DownlinkKind,
+    tx: Option<FramedWrite<ByteWriter, DownlinkNotificationEncoder>>,
+    out: Option<DlOut>,
+}
+
+#[derive(Default)]
+struct Downlinks {
+    /// how requests for the downlink with this id are answered: "ok" (default) | "refuse" | "fatal" | "delay"
+    policy: HashMap<i64, String>,
+    /// number of requests seen per id
+    gens: HashMap<i64, u64>,
+    pending: Vec<(i64, u64, DownlinkRequest)>,
+    chans: HashMap<i64, DlChan>,
 }
 
 impl World {
@@ -837,10 +1201,223 @@ impl World {
                         self.targets.push(Target { node, lane, rx: FramedRead::new(counting(rx), RawRequestMessageDecoder) });
                         let _ = c.promise.send(Ok(tx));
                     }
-                    LinkRequest::Downlink(_) => {}
+                    LinkRequest::Downlink(req) => {
+                        let node = req.address.node.to_string();
+                        let id = node_id(&node);
+                        let gen = {
+                            let g = self.dl.gens.entry(id).or_insert(0);
+                            *g += 1;
+                            *g
+                        };
+                        log(json!({"e": "dlreq", "id": id, "gen": gen, "kind": format!("{:?}", req.kind), "node": node,
+                                   "lane": req.address.lane.to_string(), "host": req.remote.as_ref().map(|h| h.to_string())}));
+                        self.dl.pending.push((id, gen, req));
+                    }
                 }
             }
         }
+        self.answer_downlinks();
+    }
+
+    /// Answer the pending requests for downlinks according to the policy of their id.
+    fn answer_downlinks(&mut self) {
+        if self.dl.pending.is_empty() {
+            return;
+        }
+        let cap = self.cfg.get("dl_cap").and_then(|v| v.as_u64()).unwrap_or(4096) as usize;
+        let out_cap = self.cfg.get("dl_out_cap").and_then(|v| v.as_u64()).unwrap_or(4096) as usize;
+        let mut still = vec![];
+        for (id, gen, req) in std::mem::take(&mut self.dl.pending) {
+            let how = self.dl.policy.get(&id).cloned().unwrap_or_else(|| "ok".to_string());
+            match how.as_str() {
+                "delay" => still.push((id, gen, req)),
+                "refuse" | "fatal" => {
+                    let reason = if how == "fatal" {
+                        DownlinkFailureReason::UnresolvableLocal(req.address.clone())
+                    } else {
+                        DownlinkFailureReason::RemoteStopped
+                    };
+                    let taken = req.promise.send(Err(DownlinkRuntimeError::DownlinkConnectionFailed(reason))).is_ok();
+                    log(json!({"e": "dlans", "id": id, "gen": gen, "how": how, "taken": taken}));
+                }
+                _ => {
+                    let (in_tx, in_rx) = byte_channel(NonZeroUsize::new(cap).unwrap());
+                    let (out_tx, out_rx) = byte_channel(NonZeroUsize::new(out_cap).unwrap());
+                    let kind = req.kind;
+                    let taken = req.promise.send(Ok((out_tx, in_rx))).is_ok();
+                    log(json!({"e": "dlans", "id": id, "gen": gen, "how": "ok", "taken": taken}));
+                    if taken {
+                        let out = match kind {
+                            DownlinkKind::Map => DlOut::Map(FramedRead::new(out_rx, MapOperationDecoder::default())),
+                            _ => DlOut::Value(FramedRead::new(out_rx, DownlinkOperationDecoder)),
+                        };
+                        self.dl.chans.insert(id, DlChan { gen, kind, tx: Some(FramedWrite::new(in_tx, DownlinkNotificationEncoder)), out: Some(out) });
+                    }
+                }
+            }
+        }
+        self.dl.pending = still;
+    }
+
+    /// Read what the agent's downlinks have written (nothing to do, and nothing logged, when no downlink was opened).
+    fn read_dlout(&mut self) -> u64 {
+        let mut n = 0;
+        let mut ids: Vec<i64> = self.dl.chans.keys().copied().collect();
+        ids.sort();
+        for id in ids {
+            let ch = self.dl.chans.get_mut(&id).unwrap();
+            let gen = ch.gen;
+            let mut closed = false;
+            if let Some(out) = ch.out.as_mut() {
+                loop {
+                    // (polled again when pending: the byte channel's cooperative budget)
+                    let mut item: Option<Option<Value>> = None;
+                    for _ in 0..3 {
+                        let polled = match out {
+                            DlOut::Value(rx) => rx.next().now_or_never().map(|o| {
+                                o.map(|r| match r {
+                                    Ok(op) => json!({"body": txt(op.body.as_ref())}),
+                                    Err(e) => json!({"err": e.to_string()}),
+                                })
+                            }),
+                            DlOut::Map(rx) => rx.next().now_or_never().map(|o| {
+                                o.map(|r| match r {
+                                    Ok(MapOperation::Update { key, value }) => json!({"m": "upd", "k": key, "v": value}),
+                                    Ok(MapOperation::Remove { key }) => json!({"m": "rem", "k": key}),
+                                    Ok(MapOperation::Clear) => json!({"m": "clr"}),
+                                    Err(e) => json!({"err": e.to_string()}),
+                                })
+                            }),
+                        };
+                        if polled.is_some() {
+                            item = polled;
+                            break;
+                        }
+                    }
+                    match item {
+                        Some(Some(mut v)) => {
+                            let bad = v.get("err").is_some();
+                            v["e"] = json!("dlout");
+                            v["id"] = json!(id);
+                            v["gen"] = json!(gen);
+                            log(v);
+                            n += 1;
+                            if bad {
+                                closed = true;
+                                break;
+                            }
+                        }
+                        Some(None) => {
+                            log(json!({"e": "dlout_eof", "id": id, "gen": gen}));
+                            closed = true;
+                            break;
+                        }
+                        None => break,
+                    }
+                }
+            }
+            if closed {
+                ch.out = None;
+            }
+        }
+        n
+    }
+
+    /// The environment acts on the downlink with this id: it plays the remote lane (linked / synced / event / unlinked),
+    /// closes the channels, feeds a frame that cannot be decoded, or drops the reader of the downlink's output.
+    fn dl_action(&mut self, a: &Value) {
+        let id = a["id"].as_i64().unwrap_or(-1);
+        let what = a["do"].as_str().unwrap_or("");
+        let mut e = json!({"e": "dlin", "id": id, "do": what});
+        for f in ["v", "m", "key", "n"] {
+            if let Some(x) = a.get(f) {
+                e[f] = x.clone();
+            }
+        }
+        let ch = match self.dl.chans.get_mut(&id) {
+            Some(ch) => ch,
+            None => {
+                e["undelivered"] = json!("nochan");
+                log(e);
+                return;
+            }
+        };
+        e["gen"] = json!(ch.gen);
+        match what {
+            "close" => {
+                ch.tx = None;
+                ch.out = None;
+                log(e);
+                return;
+            }
+            "outfail" => {
+                ch.out = None;
+                log(e);
+                return;
+            }
+            _ => {}
+        }
+        let map_like = matches!(ch.kind, DownlinkKind::Map | DownlinkKind::MapEvent);
+        let num = |f: &str| a.get(f).and_then(|v| v.as_i64()).unwrap_or(0);
+        let frame: Option<DownlinkNotification<BytesMut>> = match what {
+            "linked" => Some(DownlinkNotification::Linked),
+            "synced" => Some(DownlinkNotification::Synced),
+            "unlinked" => Some(DownlinkNotification::Unlinked),
+            // a frame whose body is not what the downlink decodes
+            "fail" => Some(DownlinkNotification::Event { body: BytesMut::from(&b"@bogus{"[..]) }),
+            "event" if !map_like => Some(DownlinkNotification::Event { body: BytesMut::from(format!("{}", num("v")).as_bytes()) }),
+            "event" if ch.kind == DownlinkKind::Map => {
+                let msg: MapMessage<i32, i32> = match a["m"].as_str().unwrap_or("") {
+                    "upd" => MapMessage::Update { key: num("key") as i32, value: num("v") as i32 },
+                    "rem" => MapMessage::Remove { key: num("key") as i32 },
+                    "take" => MapMessage::Take(num("n") as u64),
+                    "drop" => MapMessage::Drop(num("n") as u64),
+                    _ => MapMessage::Clear,
+                };
+                let mut buf = BytesMut::new();
+                MapMessageEncoder::default().encode(msg, &mut buf).expect("encode map message");
+                Some(DownlinkNotification::Event { body: buf })
+            }
+            "event" => {
+                // a map-event downlink (join map lane): the body is the Recon of the map message
+                let text = match a["m"].as_str().unwrap_or("") {
+                    "upd" => format!("@update(key:{}) {}", num("key"), num("v")),
+                    "rem" => format!("@remove(key:{})", num("key")),
+                    "take" => format!("@take({})", num("n")),
+                    "drop" => format!("@drop({})", num("n")),
+                    _ => "@clear".to_string(),
+                };
+                Some(DownlinkNotification::Event { body: BytesMut::from(text.as_bytes()) })
+            }
+            _ => None,
+        };
+        let delivered = match (frame, ch.tx.as_mut()) {
+            (Some(f), Some(tx)) => {
+                let mut fut = Box::pin(tx.send(f));
+                let mut res = None;
+                for _ in 0..4 {
+                    if let Some(r) = (&mut fut).now_or_never() {
+                        res = Some(r.is_ok());
+                        break;
+                    }
+                }
+                drop(fut);
+                match res {
+                    Some(true) => None,
+                    Some(false) => {
+                        ch.tx = None;
+                        Some("readerdropped")
+                    }
+                    None => Some("blocked"),
+                }
+            }
+            (None, _) => Some("unknown"),
+            (_, None) => Some("closed"),
+        };
+        if let Some(why) = delivered {
+            e["undelivered"] = json!(why);
+        }
+        log(e);
     }
 
     /// Look at the response promises of the outstanding HTTP requests (nothing to do, and nothing logged, when no
@@ -971,6 +1548,7 @@ impl World {
                 }
             }
             progress += self.read_targets();
+            progress += self.read_dlout();
             if progress == 0 && bytes_read() == b0 && log_activity() == l0 {
                 calm += 1;
                 if calm >= 2 {
@@ -1015,6 +1593,7 @@ impl World {
                     while let Some(true) = self.poll_frame(r) {}
                 }
                 self.read_targets();
+                self.read_dlout();
                 self.check_closed();
                 match result {
                     Some(Ok(Ok(()))) => log(json!({"e": "stopped", "result": "ok"})),
@@ -1032,7 +1611,7 @@ impl World {
 async fn run_script(case: &Value) {
     let cfg = case.get("cfg").cloned().unwrap_or(json!({}));
     let store = if cfg.get("store").and_then(|v| v.as_bool()).unwrap_or(false) { Some(RecordingStore::default()) } else { None };
-    let mut w = World { inst: Some(start_instance(&cfg, &store)), remotes: HashMap::new(), targets: vec![], store, cfg: cfg.clone(), http_pending: vec![] };
+    let mut w = World { inst: Some(start_instance(&cfg, &store)), remotes: HashMap::new(), targets: vec![], store, cfg: cfg.clone(), http_pending: vec![], dl: Downlinks::default() };
     w.settle().await;
     for a in case["acts"].as_array().unwrap() {
         let k = a["k"].as_str().unwrap();
@@ -1167,6 +1746,26 @@ async fn run_script(case: &Value) {
                 w.settle().await;
                 w.read_targets();
             }
+            // ---- the environment of the hosted downlinks
+            "dl" => {
+                w.dl_action(a);
+                if !a.get("nosettle").and_then(|v| v.as_bool()).unwrap_or(false) {
+                    w.settle().await;
+                }
+            }
+            "dlopen" => {
+                // how requests for this downlink are answered from now on (and the pending ones now)
+                let id = a["id"].as_i64().unwrap_or(-1);
+                let how = a["how"].as_str().unwrap_or("ok").to_string();
+                log(json!({"e": "dlpolicy", "id": id, "how": how}));
+                w.dl.policy.insert(id, how);
+                w.answer_downlinks();
+                w.settle().await;
+            }
+            "dlread" => {
+                w.settle().await;
+                w.read_dlout();
+            }
             "settle" => w.settle().await,
             "drop" => {
                 log(json!({"e": "drop", "r": r}));
@@ -1223,6 +1822,7 @@ async fn run_script(case: &Value) {
                 w.remotes.clear();
                 *RXS.lock() = None;
                 w.targets.clear();
+                w.dl = Downlinks::default();
                 log(json!({"e": "restart"}));
                 let store = w.store.clone();
                 w.inst = Some(start_instance(&cfg, &store));
